@@ -35,11 +35,16 @@ func toolCorpus(c *ctx, dir string, stream string, nf, np, ns int, o prog.GenOpt
 		tp := &toolPkg{Rel: rel, Kind: "static"}
 		for k := 0; k < nfiles; k++ {
 			fn := fmt.Sprintf("f%d.go", k)
+			if i%3 == 2 && k == nfiles-1 {
+				// directives in an in-package test file, in a package whose test
+				// variant alone declares the name debug (below)
+				fn = fmt.Sprintf("f%d_test.go", k)
+			}
 			sf := genStaticFile(r, name, fn, k, "")
 			writeFile(filepath.Join(dir, rel, fn), sf.Src)
 			tp.Files = append(tp.Files, fn)
 		}
-		if i%3 == 1 {
+		if i%3 != 0 {
 			// an in-package test file (no directive in it) that declares, at package
 			// level, a name the generated code would otherwise import a package
 			// under: only the package's test variant sees it
